@@ -309,6 +309,34 @@ theorem custom_flavour_last_wins :
       | .ok is => is == [⟨"user.MyRotX", [.reg ⟨2, 0⟩, .imm 1, .imm 2]⟩]
       | .error _ => false) = true := by decide +kernel
 
+/-! ### Parser histories
+
+In the model `parseText` is a function of the text (and the flavour table) alone, and its result is
+a value: editing a parsed instruction (`applyIUpds`) cannot influence a later parse of the same or
+of another text, nor another instruction of the same result.  The real parser must behave the same
+(no memo of shared mutable operand objects); the parser-history stream of checks/c17.py ties this
+to the code. -/
+
+/-- after any in-place edits `us` of an instruction `i` obtained by parsing `ls`, parsing `ls`
+again still gives the unedited result -/
+theorem parse_unaffected_by_edits (T : Table) (S : Syms) (generic : List String) (exc : List (String × Nat))
+    (ls : List (List Char)) (is : List Instr) (k : Nat) (us : List IUpd)
+    (h : parseText T S generic exc ls = .ok is) :
+    parseText T S generic exc ls = .ok is ∧
+    (∀ i, is[k]? = some i → applyIUpds i us ≠ i →
+      parseText T S generic exc ls ≠ .ok (is.set k (applyIUpds i us))) := by
+  refine ⟨h, fun i hi hne hc => ?_⟩
+  rw [h] at hc
+  have := Except.ok.inj hc
+  have h2 : (is.set k (applyIUpds i us))[k]? = some (applyIUpds i us) := by
+    have hk : k < is.length := by
+      cases Nat.lt_or_ge k is.length with
+      | inl h' => exact h'
+      | inr h' => simp [List.getElem?_eq_none h'] at hi
+    simp [hk]
+  rw [← this, hi] at h2
+  exact hne (Option.some.inj h2).symm
+
 /-! Non-vacuity -/
 
 -- a concrete printed line, and its parse
